@@ -36,7 +36,7 @@ MODEL = dict(
     mc=[_mc(4), _mc(5, tw=6), _mc(4, bug="no_widen"), _mc(4, bug="min_neg_one")],
     # "runs" x "len" cases per worker; every case is judged by definition with BigInt arithmetic (slow: ~30 cases/s/worker)
     quick=dict(sample=None, drive_runs=1600, drive_len=5),
-    thorough=dict(sample=None, drive_runs=40000, drive_len=5, tlc_timeout=3000),
+    thorough=dict(sample=None, drive_runs=40000, drive_len=5, tlc_timeout=3000, trace_timeout=14000),
     need=[("i128", "ok"), ("i128", "fail"), ("i256", "ok"), ("i256", "fail"), ("wad_mul", "ok"), ("wad_mul", "fail"),
           ("wad_div", "ok"), ("wad_div", "fail"), ("wad_ratio", "ok"), ("wad_ratio", "fail"), ("wad_pow", "ok"), ("wad_pow", "fail")],
     need_cnt=["C12_class_" + c for c in _CLASSES],
